@@ -4,6 +4,7 @@ import (
 	"fmt"
 	"go/token"
 	"go/types"
+	"sort"
 	"strings"
 
 	"golang.org/x/tools/go/ssa"
@@ -283,19 +284,25 @@ func (f *frame) frameFormulas(ct *Contract, env *specEnv, pre, post *hstate, eff
 		return
 	}
 	for _, fm := range f.frameConds(ct, env, pre, post, eff) {
-		f.assume(fm)
+		f.assume(fm.formula)
 	}
 }
 
 // frameConds builds the frame condition formulas (used as assumptions at call sites and as
 // obligations when verifying the callee).
-func (f *frame) frameConds(ct *Contract, env *specEnv, pre, post *hstate, eff map[string]bool) []string {
+type frameCond struct {
+	heap    string
+	formula string
+}
+
+func (f *frame) frameConds(ct *Contract, env *specEnv, pre, post *hstate, eff map[string]bool) []frameCond {
 	vc := f.vc
 	// collect object-level exceptions per heap
 	type exc struct {
-		refs []string // refs whose cell may change
-		arrs []string // arrays (rows) that may change
-		all  bool
+		refs  []string // refs whose cell may change
+		arrs  []string // arrays (rows) that may change
+		roots []string // every ref rooted in one of these arrays may change (elements of a slice of structs)
+		all   bool
 	}
 	ex := map[string]*exc{}
 	get := func(h string) *exc {
@@ -319,17 +326,25 @@ func (f *frame) frameConds(ct *Contract, env *specEnv, pre, post *hstate, eff ma
 		default:
 			f.modItemTargets(it, env, func(heap, ref string, isArr bool) {
 				x := get(heap)
-				if isArr {
+				switch {
+				case strings.HasPrefix(ref, "ROOT:"):
+					x.roots = append(x.roots, ref[5:])
+				case isArr:
 					x.arrs = append(x.arrs, ref)
-				} else {
+				default:
 					x.refs = append(x.refs, ref)
 				}
 			})
 		}
 	}
-	var out []string
+	var out []frameCond
 	allocPre := vc.lookup(pre, "alloc", allocSort)
+	var hs []string
 	for h := range eff {
+		hs = append(hs, h)
+	}
+	sort.Strings(hs)
+	for _, h := range hs {
 		if h == "alloc" || h == "*" {
 			continue
 		}
@@ -353,7 +368,7 @@ func (f *frame) frameConds(ct *Contract, env *specEnv, pre, post *hstate, eff ma
 		}
 		if !strings.HasPrefix(srt, "(Array Int") {
 			// global cell: either listed (all) or unchanged
-			out = append(out, eq(hp, hq))
+			out = append(out, frameCond{h, eq(hp, hq)})
 			continue
 		}
 		var diff []string
@@ -364,9 +379,12 @@ func (f *frame) frameConds(ct *Contract, env *specEnv, pre, post *hstate, eff ma
 			for _, a := range x.arrs {
 				diff = append(diff, not(eq("r", a)))
 			}
+			for _, a := range x.roots {
+				diff = append(diff, not(eq("(root r)", a)))
+			}
 		}
 		g := and(append([]string{sx("select", allocPre, "(root r)")}, diff...)...)
-		out = append(out, fmt.Sprintf("(forall ((r Int)) (! (=> %s (= (select %s r) (select %s r))) :pattern ((select %s r))))", g, hq, hp, hq))
+		out = append(out, frameCond{h, fmt.Sprintf("(forall ((r Int)) (! (=> %s (= (select %s r) (select %s r))) :pattern ((select %s r))))", g, hq, hp, hq)})
 	}
 	return out
 }
@@ -412,7 +430,12 @@ func (f *frame) modItemTargets(it ModItem, env *specEnv, add func(heap, ref stri
 		switch u := v.typ.Underlying().(type) {
 		case *types.Slice:
 			if _, isSt := isStruct(u.Elem()); isSt {
-				env.fail("modifies %s: struct element slices not supported object-level; use heap", it.Src)
+				leaves := map[string]bool{}
+				vc.eng.structLeafHeaps(u.Elem(), leaves)
+				for h := range leaves {
+					add(h, "ROOT:"+sArr(v.term), false)
+				}
+				return
 			}
 			add(elemHeapName(u.Elem()), sArr(v.term), true)
 		case *types.Map:
@@ -487,6 +510,13 @@ func (f *frame) invoke(c *ssa.CallCommon, pos token.Pos) []Val {
 	key := ifaceKey(c.Value.Type(), c.Method)
 	ct := eng.cs.Contracts["iface::"+key]
 	sig := c.Method.Type().(*types.Signature)
+	// devirtualise when the dynamic type is known (interface value built in this activation or an inlined caller)
+	if ci, ok := vc.ifaceConcrete[recv.t]; ok {
+		if fn := eng.prog.LookupMethod(ci.typ, c.Method.Pkg(), c.Method.Name()); fn != nil {
+			cargs := append([]Val{ci.val}, args[1:]...)
+			return f.callFunc(fn, cargs, nil, c, pos)
+		}
+	}
 	if ct != nil {
 		ct.used = true
 		// build signature with receiver for naming
